@@ -495,6 +495,33 @@ def h_shared(ctx):
     c02.c(ctx)
 
 
+@R.clause("C10.i", "'received on a multicast address' is decided on the normalised local address: v4-mapped groups (::ffff:224.0.1.187) count as multicast, exactly as for the remote address")
+def i_multicast_locally(ctx):
+    """An independently written breaking change evaluated IPv6Address(<packed local address>).is_multicast directly:
+    for v4-mapped addresses that is False, so an unmatched CON response received on an IPv4 group was answered with a
+    Reset.  Sibling agreement: is_multicast and is_multicast_locally both take .is_multicast of ipaddress.ip_address()
+    applied to a plain-address string that went through _strip_v4mapped."""
+    cls = ctx.prog.cls("transports.udp6.UDP6EndpointAddress")
+    for prop, helper in (("is_multicast", "_plainaddress"), ("is_multicast_locally", "_plainaddress_local")):
+        fi = cls.methods.get(prop)
+        ctx.need(fi is not None, "UDP6EndpointAddress.%s missing" % prop)
+        rets = [n for n in walk_no_nested(fi.node) if isinstance(n, ast.Return) and n.value is not None]
+        ok = False
+        if len(rets) == 1:
+            v = resolve_local(fi.node, rets[0].value)
+            b = match("ipaddress.ip_address($a).is_multicast", v)
+            if b is not None:
+                a = resolve_local(fi.node, b["a"])
+                src = [c for c in ast.walk(a) if isinstance(c, ast.Call) and call_name(c) == "self." + helper]
+                ok = len(src) == 1
+        ctx.ob("%s is ipaddress.ip_address(<%s()>).is_multicast" % (prop, helper), ok, fi, rets[0] if rets else fi.node)
+        hf = cls.methods.get(helper)
+        ctx.need(hf is not None, "UDP6EndpointAddress.%s missing" % helper)
+        hr = [n for n in walk_no_nested(hf.node) if isinstance(n, ast.Return) and n.value is not None]
+        okh = bool(hr) and all(any(isinstance(c, ast.Call) and call_name(c) == "self._strip_v4mapped" for c in ast.walk(r.value)) for r in hr)
+        ctx.ob("%s renders v4-mapped addresses as plain IPv4 (through _strip_v4mapped)" % helper, okh, hf, hr[0] if hr else hf.node)
+
+
 F_MM = "aiocoap/messagemanager.py"
 R.seed("C10.a", F_MM, "        elif message.code.is_request() and message.mtype in (CON, NON):", "        elif message.code.is_request() and message.mtype in (CON,):", "NON requests ignored")
 R.seed("C10.a", F_MM, "                if message.mtype == CON and not message.remote.is_multicast_locally:", "                if message.mtype == CON:", "Reset also on multicast")
@@ -523,3 +550,5 @@ R.seed("C10.g", "aiocoap/transports/udp6.py", "        if not self.is_multicast_
 R.seed("C10.g", "aiocoap/transports/udp6.py", "        return type(self)(self.sockaddr, self.interface)\n", "        return type(self)(self.sockaddr, self.interface, pktinfo=self.pktinfo)\n", "local address kept")
 
 R.seed("C10.h", "aiocoap/tokenmanager.py", "        request.on_interest_end(\n            functools.partial(self.outgoing_requests.pop, key, None)\n        )\n", "        request.on_interest_end(\n            functools.partial(self.outgoing_requests.pop, (msg.token, msg.remote), None)\n        )\n", "multicast request cleaned up under another key than it is registered under")
+
+R.seed("C10.i", "aiocoap/transports/udp6.py", "        return ipaddress.ip_address(self._plainaddress_local()).is_multicast", "        return ipaddress.IPv6Address(_in6_pktinfo.unpack_from(self.pktinfo)[0]).is_multicast", "v4-mapped multicast groups are not recognised: Reset sent to an IPv4 group")
